@@ -8,6 +8,7 @@ pub mod c09;
 pub mod c10;
 pub mod c12;
 pub mod c13;
+pub mod c14;
 
 use crate::engine::Prop;
 
@@ -23,6 +24,7 @@ pub fn get(id: &str) -> Option<Box<dyn Prop>> {
     "C10" => Some(Box::new(c10::C10)),
     "C12" => Some(Box::new(c12::C12)),
     "C13" => Some(Box::new(c13::C13)),
+    "C14" => Some(Box::new(c14::C14)),
     _ => None,
   }
 }
